@@ -322,6 +322,7 @@ func (f *Fixture) Message(e Ev, offset int) storage.Message {
 		ParticipantId int
 		Error         string
 		CreatedAt     time.Time
+		BatchID       string `json:",omitempty"`
 	}
 	errReq := func() interface{} {
 		return wireErr{ParticipantId: e.Pid, Error: errText, CreatedAt: at}
@@ -424,7 +425,13 @@ func (f *Fixture) Message(e Ev, offset int) storage.Message {
 		data = r
 	case EvErrSign:
 		ev = string(sif.EventSigningPartialSignError)
-		data = errReq()
+		r := wireErr{ParticipantId: e.Pid, Error: errText, CreatedAt: at}
+		if e.Batch >= 0 {
+			// the machine names the batch it could not sign (e.Batch < 0: a report in
+			// the format of older versions, without a batch id)
+			r.BatchID, _ = f.batchRef(e.Batch)
+		}
+		data = r
 	}
 	bz, _ := json.Marshal(data)
 	return storage.Message{ID: fmt.Sprintf("h-%d", offset), DkgRoundID: f.Round, Offset: uint64(offset), Event: ev, Data: bz, SenderAddr: f.name(e.Pid)}
